@@ -74,7 +74,7 @@ def sized_cfg(ops, nslots, nblocks, maxframes, hows, emit=True, view="CanonView"
         "CHECK_DEADLOCK FALSE", ""])
 
 
-def graph_replay(prop, tier, name, family, root, modules, cfg_text, nslots, harness_cfg="a", tlc_timeout=3000, simulate=None, scale=1, cats=None):
+def graph_replay(prop, tier, name, family, root, modules, cfg_text, nslots, harness_cfg="a", tlc_timeout=5400, simulate=None, scale=1, cats=None):
     """TLC explores the handle-level specification exhaustively (invariants + action properties) and
     exports one concrete behaviour per transition; every behaviour is replayed into the real crate and
     the implementation's observable state compared with the specification's projection."""
